@@ -377,8 +377,8 @@ ASSUME = [
 
 CLAIM = dict(
     text='Machine-checked proof (Coq 8.16.1) over the executable model of the index core and its byte-level writers/readers: statistics kept by Add equal the true counts and spans (stats_true); '
-         'BAI: reading what WriteIndex wrote gives the sorted index, writing that gives identical bytes, and every query and statistic is unchanged (index_io_roundtrip, chunks_preserved); the empty tabix index round-trips (tabix_zero_refs_roundtrip). '
-         'CSI v1/v2 and tabix round trips are validated on every run (model evaluated inside Coq against the implementation, on built indexes and on independently written foreign files), their proofs stop at the shared blocks (chunks_preserved_partial, stats_preserved_partial, index_io_roundtrip_partial).',
+         'BAI: reading what WriteIndex wrote gives the sorted index, writing that gives identical bytes, and every query and statistic is unchanged (index_io_roundtrip, chunks_preserved); the same for tabix (tabix_io_roundtrip, tabix_zero_refs_roundtrip). '
+         'The CSI v1/v2 round trip is validated on every run (model evaluated inside Coq against the implementation, on built indexes and on independently written foreign files), its proof stops at the shared blocks (chunks_preserved_partial, stats_preserved_partial, index_io_roundtrip_partial).',
     note='Trusted: Coq kernel, the hand-written byte-level model (validated each run), generators/oracle/spec-level writer. No axioms.',
     technique='Coq proof over hand-written executable model + vm_compute correspondence + independent counters / spec-level writer',
     design='6/C15')
